@@ -187,3 +187,28 @@ Definition function_at (root : module) (f : fid) : option function :=
       end
   | None => None
   end.
+
+(* ---- enumeration of the call sites' surroundings: every function of the tree, in the order in which
+   the compiler numbers them (fn_position is the index in this list), with the path of its module and
+   that module's import list ---- *)
+Record fsite := { fs_path : list str; fs_name : str; fs_fn : function; fs_imports : list str }.
+
+Fixpoint tree_functions (m : module) (path : list str) : list fsite :=
+  match m with
+  | Module subs funs imps =>
+      map (fun nf => {| fs_path := path; fs_name := fst nf; fs_fn := snd nf; fs_imports := imps |}) funs ++
+      (fix go (l : list (str * module)) : list fsite :=
+         match l with
+         | [] => []
+         | (n, sub) :: r => tree_functions sub (path ++ [n]) ++ go r
+         end) subs
+  end.
+
+(* no module name of the tree contains a '.' (module names are not validated by the compiler; with a
+   dotted module name full names are ambiguous and the specification does not apply) *)
+Definition module_names_dotfree (root : module) : bool :=
+  negb (any_module (fun _ m => existsb (fun n => negb (is_dotless n)) (map fst (m_submodules m))) 0 root).
+
+(* the user's module with the standard library injected, as the compiler sees it *)
+Definition with_std (std : module) (m : module) : module :=
+  match m with Module subs funs imps => Module (subs ++ [(w_std, std)]) funs imps end.
